@@ -81,11 +81,20 @@ class Evaluator:
                 return 0
             if ck == "PointerToBoolean":
                 return 1 if self.ev(n["c"][0]) else 0
-            if ck in ("IntegralToFloating", "FloatingToIntegral", "FloatingCast"):
-                raise Unknown("float")
+            if ck in ("IntegralToFloating", "FloatingCast"):
+                return float(self.ev(n["c"][0]))
+            if ck == "FloatingToIntegral":
+                v = self.ev(n["c"][0])
+                if v != v or v in (float("inf"), float("-inf")):
+                    raise Unknown("float->int of non-finite")
+                return self.wrap(int(v), n.get("ct"))
+            if ck == "FloatingToBoolean":
+                return 1 if self.ev(n["c"][0]) != 0 else 0
             return self.ev(n["c"][0])
         if k in ("IntegerLiteral", "CharacterLiteral"):
             return int(n["v"])
+        if k == "FloatingLiteral":
+            return float(n["v"])
         if k == "CXXBoolLiteralExpr":
             return 1 if n["v"] else 0
         if k in ("CXXNullPtrLiteralExpr", "GNUNullExpr"):
@@ -175,11 +184,41 @@ class Evaluator:
                 if r is None:
                     raise Unknown(nm)
                 return r
+            inl = getattr(self, "inline", None)
+            if inl and nm in inl and n.get("callee") and n["callee"]["mn"] in self.prog.functions:
+                g = self.prog.functions[n["callee"]["mn"]]
+                args = [self.ev(a) for a in f.args(n)]
+                sub = Evaluator(self.prog, g, env={q["name"]: self.wrap(v, q["ct"]) if isinstance(v, int) else v for q, v in zip(g.params, args)}, calls=self.calls)
+                sub.inline = inl
+                sub.pass_object = getattr(self, "pass_object", False)
+                sub.run_blocks(g.entry, max_steps=500)
+                r = getattr(sub, "ret", None)
+                if r is None or isinstance(r, tuple):
+                    raise Unknown("inlined %s: %s" % (nm, r))
+                return r
             self.trace.append((nm, None, n))
             raise Unknown("call " + str(nm))
         raise Unknown(k)
 
     def _bin(self, op, a, b, ct):
+        if isinstance(a, float) or isinstance(b, float):
+            a, b = float(a), float(b)
+            if op == "+": return a + b
+            if op == "-": return a - b
+            if op == "*": return a * b
+            if op == "/":
+                if b == 0.0:
+                    if a != a or a == 0.0: return float("nan")
+                    import math
+                    return math.copysign(float("inf"), a) * math.copysign(1.0, b)
+                return a / b
+            if op == "==": return 1 if a == b else 0
+            if op == "!=": return 1 if a != b else 0
+            if op == "<": return 1 if a < b else 0
+            if op == ">": return 1 if a > b else 0
+            if op == "<=": return 1 if a <= b else 0
+            if op == ">=": return 1 if a >= b else 0
+            raise Unknown(op)
         if op == "+": v = a + b
         elif op == "-": v = a - b
         elif op == "*": v = a * b
